@@ -1,18 +1,22 @@
 import NasVerif.Gen.Counter
+import NasVerif.Spec.CounterCanon
 import NasVerif.Gen.Unrecognised
 import NasVerif.Proofs.Bits
 /-!
 # C11 — NAS COUNT behaves as a 24-bit overflow‖sequence-number counter
 
-All theorems are about the definitions regenerated from `/repo/security/counter.go` on this run
-(`NasVerif.Gen.Counter`): a changed mask or shift changes the definition and the proof no longer checks.
+All theorems are about the canonical definitions `Spec.CounterCanon` (the translation of `security/counter.go` at the pinned
+commit); `Props/C11Tie.lean` proves on every run that the definitions regenerated from `/repo/security/counter.go`
+(`NasVerif.Gen.Counter`) are equal to them: a changed mask or shift makes that tie fail.
 -/
 namespace NasVerif.Props.C11
-open NasVerif.Gen.Counter NasVerif.Bits
+open NasVerif.Spec.CounterCanon NasVerif.Bits
 
 theorem translator_total : NasVerif.Gen.unrecognisedCounter = [] := by decide
+/-- the seven API methods of `security.Count` are all translated on this run (helpers may come and go) -/
 theorem methods_covered :
-    methods = ["AddOne", "Get", "Overflow", "SQN", "Set", "SetOverflow", "SetSQN", "maskTo24Bits"] := by decide
+    ["AddOne", "Get", "Overflow", "SQN", "Set", "SetOverflow", "SetSQN"].all (NasVerif.Gen.Counter.methods.contains ·) = true := by
+  decide
 
 /-- the state space of the counter -/
 def Inv (c : BitVec 32) : Prop := c.toNat < 2^24
